@@ -141,6 +141,8 @@ class Ctx:
         self.started_targets = {}  # targets whose function was entered (so a file there is ours to remove)
         self.spell_rng = None      # C07: spell every path handed to the library differently
         self.spellings = {}
+        self.api_variant = 0       # alternate between equivalent API spellings (read_text / read_binary / declare_read, build_file / build_file_with_comparison)
+        self.api_used = {}
         self.cache_probe = None    # C16: () -> description if the old cache file is no longer in place as it was before the build
         self.cache_early = []
 
@@ -248,7 +250,19 @@ def do_query(ctx, b, kind, rel, extra):
             return 'dir'
         return b.get_size(p)
     if kind == 'read':
-        with b.read_text(p, ctx.cmp(extra)) as fh:
+        # the three spellings of "this function reads that file" record the same operation
+        ctx.api_variant += 1
+        v = ctx.api_variant % 3
+        ctx.api_used['read_text' if v == 0 else 'read_binary' if v == 1 else 'declare_read'] = ctx.api_used.get(
+            'read_text' if v == 0 else 'read_binary' if v == 1 else 'declare_read', 0) + 1
+        if v == 0:
+            with b.read_text(p, ctx.cmp(extra)) as fh:
+                return fh.read()
+        if v == 1:
+            with b.read_binary(p, ctx.cmp(extra)) as fh:
+                return fh.read().decode('utf-8')
+        b.declare_read(p, ctx.cmp(extra))
+        with open(ctx.P(rel), 'r') as fh:
             return fh.read()
     raise ValueError(kind)
 
@@ -419,8 +433,13 @@ def exec_stmts(ctx, stmts, b, target, acc):
             try:
                 call_args = [dec_pyval(arg), dec_pyval(kw)] + [dec_pyval(x) for x in extra]
                 try:
-                    r = b.build_file_with_comparison(
-                        ctx.spell(tgt), ctx.cmp(cmp_), name, body, call_args[0], *call_args[2:], **call_args[1])
+                    ctx.api_variant += 1
+                    if cmp_ == 'M' and ctx.api_variant % 2 == 0:
+                        ctx.api_used['build_file'] = ctx.api_used.get('build_file', 0) + 1
+                        r = b.build_file(ctx.spell(tgt), name, body, call_args[0], *call_args[2:], **call_args[1])
+                    else:
+                        r = b.build_file_with_comparison(
+                            ctx.spell(tgt), ctx.cmp(cmp_), name, body, call_args[0], *call_args[2:], **call_args[1])
                 finally:
                     del ctx.call_stack[depth - 1:]
                     if ctx.mutate:
